@@ -49,6 +49,12 @@ def alt_values(V):
     if k == "str":
         s = V["s"]
         out.append(("value-changed", S(s + "x")))
+        # an edit nobody sees on screen: a zero-width / format / combining character inserted into the text (NFC leaves all of
+        # these in place, so the value is another value)
+        inv = ["\u200b", "\u2060", "\ufeff", "\u200d", "\u00ad", "\u200e", "\u034f"][len(s) % 7]
+        out.append(("value-invisible-char-inserted", S(s[: len(s) // 2] + inv + s[len(s) // 2:])))
+        if " " in s:
+            out.append(("value-space-to-nbsp", S(s.replace(" ", "\u00a0", 1))))
         if "\n" in s:
             out.append(("value-newline-to-other-separator", S(s.replace("\n", ["\u2028", "\x85", "\x0c"][len(s) % 3], 1))))
             out.append(("value-newline-to-backslash-n-text", S(s.replace("\n", "\\n", 1))))
@@ -298,6 +304,27 @@ def check(doc, seeds, with_files, root, only=None):
                 code, out, err, exc = tools.cli(["validate", p_in, "--verify-seal", "--require-seal"])
                 if code == 0:
                     fails["C15:unlisted:cli-require-seal-passes-unsealed"] = "validate --verify-seal --require-seal exits 0 on an unsealed file"
+                # the sealed file with one character of its stored hash changed: every seal-checking flag combination, from a
+                # file and from stdin, must say INVALID and must not exit 0
+                with open(p_out, encoding="utf-8", newline="") as fh:
+                    ftext = fh.read()
+                fm = re.search(r"[0-9a-f]{64}", SEAL_RE.search(ftext).group(0)) if SEAL_RE.search(ftext) else None
+                if fm:
+                    fh_ = fm.group(0)
+                    bad = ftext.replace(fh_, ("0" if fh_[0] != "0" else "1") + fh_[1:])
+                    with open(p_out, "w", encoding="utf-8", newline="") as fh:
+                        fh.write(bad)
+                    for flags in (["--verify-seal"], ["--verify-seal", "--require-seal"], ["--require-seal", "--verify-seal"]):
+                        for src in ("file", "stdin"):
+                            if src == "file":
+                                code, out, err, exc = tools.cli(["validate", p_out] + flags)
+                            else:
+                                code, out, err, exc = tools.cli(["validate", "--stdin"] + flags, input=bad)
+                            stats["labels"]["cli_tampered_runs"] = stats["labels"].get("cli_tampered_runs", 0) + 1
+                            if exc is None and "Seal: VERIFIED" in out:
+                                fails["C15:unlisted:cli-tampered-file-verified"] = f"validate {' '.join(flags)} ({src}) on a file whose stored hash was changed prints Seal: VERIFIED"
+                            elif exc is None and code == 0:
+                                fails["C15:unlisted:cli-tampered-file-exit-0"] = f"validate {' '.join(flags)} ({src}) on a file whose stored hash was changed exits 0: {out[-160:]!r}"
                 os.unlink(p_out)
             p2 = os.path.join(root, "aw.oct.md")
             r = atomic_write_octave(p2, stext, None)
